@@ -23,7 +23,11 @@ type Child struct {
 // StartChild starts `verifmc-<cfg> -check <id>` in the background with its
 // own evidence root under .cache/<id>-<cfg>.
 func (c *Ctx) StartChild(cfg, id string, env ...string) *Child {
-	bin := filepath.Join(os.Getenv("VERIF_BIN"), "verifmc-"+cfg)
+	return c.StartChildBin(filepath.Join(os.Getenv("VERIF_BIN"), "verifmc-"+cfg), cfg, id, env...)
+}
+
+// StartChildBin is StartChild for an explicitly given binary.
+func (c *Ctx) StartChildBin(bin, cfg, id string, env ...string) *Child {
 	if _, err := os.Stat(bin); err != nil {
 		fmt.Fprintf(os.Stderr, "%s: harness binary for configuration %s missing: %s\n", c.ID, cfg, bin)
 		os.Exit(2)
@@ -50,6 +54,7 @@ func (c *Ctx) Join(ch *Child) {
 	var ev struct {
 		Coverage struct {
 			Evaluations int64 `json:"evaluations"`
+			Distinct    int64 `json:"distinct_nontrivial"`
 			Exhaustive  bool  `json:"exhaustive"`
 		} `json:"coverage"`
 		Violations int `json:"violations"`
@@ -77,5 +82,6 @@ func (c *Ctx) Join(ch *Child) {
 		c.Exhaustive = false
 	}
 	c.Eval(ev.Coverage.Evaluations)
+	c.DistinctN(ev.Coverage.Distinct)
 	c.Extra("child_"+ch.id+"_"+ch.cfg+"_evaluations", ev.Coverage.Evaluations)
 }
